@@ -48,6 +48,17 @@ ASSUMPTIONS = ["duplicated qualifier keys: the effective (last) value is the one
                "finding int-max-str-digits"]
 
 
+def S_of(c):
+    """code points of a string case; kind "srep" = pre + ch*n + post (compact form for very long strings)"""
+    if c["k"] == "srep":
+        return cps(c["pre"] + c["ch"] * c["n"] + c.get("post", ""))
+    return c["s"]
+
+
+def is_s(c):
+    return c["k"] in ("s", "srep")
+
+
 def hx40(rng):
     return "".join(rng.choice("0123456789abcdef") for _ in range(40))
 
@@ -236,13 +247,13 @@ _VALIDISH = re.compile(r"swh:1:(snp|rel|rev|dir|cnt):[0-9a-f]{40}(;\S+)?")
 
 
 def nontrivial(c):
-    return c["k"] == "s"
+    return is_s(c)
 
 
 def classify(c):
-    if c["k"] != "s":
+    if not is_s(c):
         return ["stdlib:" + c["k"]]
-    s = c["s"]
+    s = S_of(c)
     ks = ["strings"]
     if 59 in s:
         ks.append("with-qualifiers")
@@ -296,7 +307,7 @@ def impl(c):
         except UnicodeEncodeError:
             return {"out": "err"}
     from swh.model.swhids import CoreSWHID, ExtendedSWHID, QualifiedSWHID
-    s = uncps(c["s"])
+    s = uncps(S_of(c))
     res = {}
     res["C"], _ = _parse(CoreSWHID, s, fields_core)
     res["X"], _ = _parse(ExtendedSWHID, s, fields_core)
@@ -319,8 +330,8 @@ def impl(c):
 # ---------------------------------------------------------------- model
 def requests(c):
     k = c["k"]
-    if k == "s":
-        return ["s %d %s" % (LIM, tok_text(c["s"]))]
+    if is_s(c):
+        return ["s %d %s" % (LIM, tok_text(S_of(c)))]
     if k in ("quoteb", "utf8dec"):
         return ["%s %s" % (k, c["b"] or ".")]
     return ["%s %s" % (k, tok_text(c["t"]))]
@@ -343,11 +354,11 @@ def model(c, resp):
 
 # ---------------------------------------------------------------- property and comparison
 def oracle(c, ires, mres):
-    if c["k"] != "s":
+    if not is_s(c):
         return None
     if "lang" not in mres:
         return None
-    s = c["s"]
+    s = S_of(c)
     names = {"C": "CoreSWHID", "X": "ExtendedSWHID", "Q": "QualifiedSWHID"}
     for x in "CXQ":
         r = ires[x]
@@ -386,7 +397,7 @@ def oracle(c, ires, mres):
 def compare(c, ires, mres):
     if "model_error" in mres:
         return "model/driver failed: " + str(mres)[:300]
-    if c["k"] != "s":
+    if not is_s(c):
         if ires["out"] != mres["out"]:
             return "stdlib piece %s: implementation %s, model %s" % (c["k"], K.canon(ires["out"])[:300], K.canon(mres["out"])[:300])
         return None
@@ -398,14 +409,33 @@ def compare(c, ires, mres):
 
 def finding_key(c, ires, mres):
     """a sentence of the language rejected only because a number in it is longer than the interpreter's limit"""
-    if c["k"] == "s" and mres.get("lang", {}).get("Q") and not mres.get("within_limit", True) and "error" in ires.get("Q", {}):
+    if is_s(c) and mres.get("lang", {}).get("Q") and not mres.get("within_limit", True) and "error" in ires.get("Q", {}):
         return "int-max-str-digits"
     return None
 
 
 def shrink(c):
+    if c["k"] == "srep":
+        for n in (c["n"] // 2, c["n"] - 1):
+            if 0 <= n < c["n"]:
+                d = dict(c)
+                d["n"] = n
+                yield d
+        return
     if c["k"] == "s":
         s = c["s"]
+        if len(s) > 400:                   # long strings: cut the longest run of one repeated character
+            best, i = (0, 0), 0
+            while i < len(s):
+                j = i
+                while j < len(s) and s[j] == s[i]:
+                    j += 1
+                if j - i > best[0]:
+                    best = (j - i, i)
+                i = j
+            n, i = best
+            for m in (n // 2, n - 1):
+                yield {"k": "s", "s": s[:i] + s[i:i + m] + s[i + n:]}
         # drop whole qualifiers, then single characters of the qualifier part
         parts = []
         cur = []
@@ -422,7 +452,7 @@ def shrink(c):
             for j, p in enumerate(rest):
                 out += ([59] if j else []) + p
             yield {"k": "s", "s": out}
-        if len(s) > 50:
+        if 50 < len(s) <= 400:
             for i in range(50, len(s)):
                 yield {"k": "s", "s": s[:i] + s[i + 1:]}
     elif "t" in c:
